@@ -76,6 +76,8 @@ struct ghost {
   int poll_calls, poll_timeout, poll_ret; int64_t poll_at;
   uint32_t poll_fds;    /* descriptors handed to the last poll                */
   uint32_t poll_ready;  /* ... of which reported with revents != 0            */
+  unsigned long poll_nfds;
+  int poll_fdv[12]; short poll_evv[12]; short poll_rev[12]; /* per slot: fd, events asked, revents */
   /* ---- start-up input cursor (C02) ------------------------------------------ */
   int in_fd; size_t stream_pos;
   /* strdup / path_prepend_cwd / strv_concat provenance */
